@@ -114,7 +114,12 @@ def enc(v):
         return 's%d' % v
     if t == 5:
         return (v, None)
+    if v in FALSY:           # values that are false in a boolean context (exact codes 6000, 7000, 8000, 9000)
+        return FALSY[v]()
     return v
+
+
+FALSY = {6000: int, 7000: list, 8000: str, 9000: dict}
 
 
 def _same_value(a, b):
@@ -132,6 +137,9 @@ def _same_value(a, b):
 
 def canon(v):
     code = None
+    for c, t in FALSY.items():
+        if type(v) is t and v == t():
+            return c
     try:
         if isinstance(v, list):
             code = v[0]
